@@ -2,7 +2,7 @@
 
 mod attributes;
 
-use self::attributes::{ContainerAttributes, FieldAttributes, VariantAttributes};
+use self::attributes::{ContainerAttributes, FieldAttributes, VariantAttributes, Case, Separatable};
 use crate::util::{inner_Option, extract_doc_comment, extract_doc_attrs};
 use proc_macro2::{TokenStream, Span};
 use quote::quote;
@@ -26,7 +26,7 @@ pub(super) fn derive_schema(input: TokenStream) -> syn::Result<TokenStream> {
             &*container_attrs.serde.from,
             &*container_attrs.serde.try_from,
         ) {
-            (None, None, None) => schema_of_fields(s.fields, &container_attrs)?,
+            (None, None, None) => schema_of_fields(s.fields, &container_attrs.serde.rename_all)?,
             (Some(t), _, _) | (_, Some(t), _) | (_, _, Some(t)) => {
                 let t = syn::parse_str::<Type>(t)?;
                 quote! {
@@ -125,7 +125,7 @@ pub(super) fn derive_schema(input: TokenStream) -> syn::Result<TokenStream> {
         })
     }
 
-    fn schema_of_fields(fields: Fields, container_attrs: &ContainerAttributes) -> syn::Result<TokenStream> {
+    fn schema_of_fields(fields: Fields, rename_all: &Separatable<Case>) -> syn::Result<TokenStream> {
         match fields {
             Fields::Named(FieldsNamed { brace_token:_, named }) => {/* object */
                 let mut properties = Vec::with_capacity(named.len());
@@ -140,7 +140,7 @@ pub(super) fn derive_schema(input: TokenStream) -> syn::Result<TokenStream> {
                     }
 
                     let mut ident = f.ident.clone().unwrap(/* Named */);
-                    if let Some((span, case)) = container_attrs.serde.rename_all.value()? {
+                    if let Some((span, case)) = rename_all.value()? {
                         ident = Ident::new(&case.apply_to_field(&ident.to_string()), span);
                     }
                     if let Some((span, rename)) = field_attrs.serde.rename.value()? {
@@ -340,7 +340,7 @@ pub(super) fn derive_schema(input: TokenStream) -> syn::Result<TokenStream> {
 
         } else {
             let mut variant_schemas = Vec::with_capacity(variants.len());
-            for mut v in variants {
+            for v in variants {
                 let variant_attrs = VariantAttributes::new(&v.attrs)?;
 
                 if variant_attrs.serde.skip
@@ -362,21 +362,11 @@ pub(super) fn derive_schema(input: TokenStream) -> syn::Result<TokenStream> {
                     LitStr::new(&ident.to_string(), ident.span())
                 };
 
-                /* preprocess `#[serde(rename_all_fields)]` of enum */
-                if let (
-                    Fields::Named(FieldsNamed { brace_token:_, named }),
-                    Some((span, case))
-                ) = (
-                    &mut v.fields,
-                    container_attrs.serde.rename_all_fields.value()?
-                ) {
-                    for f in named {
-                        f.ident = Some(Ident::new(
-                            &case.apply_to_field(&f.ident.as_ref().unwrap(/* Named */).to_string()),
-                            span
-                        ));
-                    }
-                }
+                /* fields of a variant follow the variant's `rename_all`, or else the enum's `rename_all_fields` */
+                let rename_all_of_fields = match variant_attrs.serde.rename_all.value()? {
+                    Some(_) => &variant_attrs.serde.rename_all,
+                    None    => &container_attrs.serde.rename_all_fields,
+                };
 
                 let mut schema = if let Some(schema_with) = &variant_attrs.openapi.schema_with {
                     let schema_with = syn::parse_str::<Path>(schema_with)?;
@@ -384,7 +374,7 @@ pub(super) fn derive_schema(input: TokenStream) -> syn::Result<TokenStream> {
                         #schema_with()
                     }
                 } else {
-                    schema_of_fields(v.fields, &container_attrs)?
+                    schema_of_fields(v.fields, rename_all_of_fields)?
                 };
 
                 schema = match (
